@@ -486,4 +486,5 @@ func runC16(c *Check) {
 		}
 		c.Req(n == 1, p.Name(f), "-", "cascade-config:write", "one site writes a cascade configuration", fmt.Sprintf("%d", n))
 	})
+	extraC16(c)
 }
